@@ -124,6 +124,30 @@ PARAMS = {
     # graph(gate=1) calling SynthDef.wrap(inner(z, freq=2, a: 'ar' = 0.25),
     # rates=['ir'], prepend=[3.0])
     'wrap': [('gate', 1.0, 'kr'), ('freq', 2.0, 'ir'), ('a', 0.25, 'ar')],
+    # several SynthDef.wrap calls in one graph function (see WRAP_VARIANTS):
+    # two siblings
+    'wrap2': [('gate', 1.0, 'kr'),
+              ('wa_f', 2.0, 'kr'), ('wa_a', (0.25, 3.0), 'ir'),
+              ('wb_d', 0.5, 'kr'), ('wb_p', (0.75, 1.25), 'ar'),
+              ('wb_t', 1.5, 'tr')],
+    # three siblings
+    'wrap3': [('gate', 1.0, 'kr'),
+              ('wc_a', 2.0, 'kr'), ('wc_b', (0.25, 0.5), 'tr'),
+              ('wd_a', 3.0, 'ir'), ('wd_b', (0.75, 1.0, 1.25), 'kr'),
+              ('we_a', (1.5, 1.75), 'ar'), ('we_b', 4.0, 'kr')],
+    # a wrap followed by controls made by hand
+    'wrapman': [('gate', 1.0, 'kr'),
+                ('wf_a', 2.0, 'kr'), ('wf_b', (0.25, 0.5), 'ir'),
+                ('wf_c', (0.75, 1.0), 'kr'), ('wf_d', 1.25, 'ar')],
+    # a wrap with another wrap inside it, followed by a sibling
+    'wrapnest': [('gate', 1.0, 'kr'),
+                 ('wg_a', 2.0, 'kr'), ('wg_b', (0.25, 0.5), 'ir'),
+                 ('wh_a', 0.75, 'tr'), ('wh_b', (1.0, 1.25), 'kr'),
+                 ('wi_a', 3.0, 'kr'), ('wi_b', (1.5, 1.75), 'ar')],
+    # the wrapped functions first, then a parameter-less sibling, no outer
+    # parameters
+    'wrapbare': [('wj_a', (0.25, 0.5), 'kr'), ('wj_b', 2.0, 'ir'),
+                 ('wk_a', 3.0, 'tr'), ('wk_b', (0.75, 1.0, 1.25), 'ar')],
     # controls made by hand inside the function (AbstractControl docstring)
     'manual': [('freq', (0.5, 2.0), 'kr'), ('a', 0.25, 'ar'),
                ('l', (4.0, 8.0), 'kr'), ('i', 0.125, 'ir')],
@@ -134,6 +158,9 @@ PARAMS = {
     # the default of freq is not decided here
     'specs': [('freq', None, 'kr'), ('amp', 0.0, 'kr'), ('gate', 1.0, 'kr')],
 }
+
+
+WRAP_VARIANTS = ['wrap2', 'wrap3', 'wrapman', 'wrapnest', 'wrapbare']
 
 
 def has_gate(variant):
